@@ -126,6 +126,18 @@ CLAIMED.update({
         design="6/C04"),
 })
 
+CLAIMED.update({
+    "C13": dict(
+        technique="Lean 4 proof (inductive invariant over all schedules of any number of processes incl. kills) + single-stepping of the real lock() in threads at audit events compared with the model + real kill -9",
+        text=("C13_mutex / C13_mutex_count (at most one process inside, for every schedule of any number of processes and kills), "
+              "C13_losers_exit, C13_stale_lock_free, and the decided counterexample for the original protocol are proved; the real "
+              "APTMirror.lock() is single-stepped in 2-3 threads over all 252 two-instance interleavings and hundreds of three-instance "
+              "schedules, outcomes are compared with the model and the number of instances inside is monitored; a real process is "
+              "killed with SIGKILL while holding the lock."),
+        note="Kernel semantics of open/flock/unlink are the model's step rules; flock+inode check and unlink+close are single real steps in the harness. Models the code after the lock fix. Trusted: Lean kernel, model, harness.",
+        design="6/C13"),
+})
+
 NOT_YET = {}
 
 
